@@ -253,7 +253,7 @@ pub fn decode_bytes_from_inscription_data(mut inscription_data: &str) -> Option<
     // 0x00 = uncompressed
     // 0x01 = nada
     // 0x02 = zstd
-    match base64_decoded[0] {
+    match *base64_decoded.first()? {
         0x00 => {
             // Uncompressed
             if base64_decoded.len() > CALLDATA_LIMIT {
